@@ -19,6 +19,8 @@ VARIANTS = {
     "C": ("simrel", "sse2", None, "", None),       # SSE2 scanner, assertions off (as shipped)
     "D": ("simdbg", "sse2", "nightly", "-Zsanitizer=address", "x86_64-unknown-linux-gnu"),
     "DB": ("simdbg", "generic", "nightly", "-Zsanitizer=address", "x86_64-unknown-linux-gnu"),
+    # Miri (always the portable scanner); run through `cargo miri run`, see command()
+    "E": ("dev", "generic", "nightly", "", None),
 }
 
 
@@ -72,9 +74,21 @@ def render():
     return os.path.join(root, "sim")
 
 
+def command(variant):
+    """Command prefix that runs hbsim for a variant."""
+    if variant == "E":
+        return ["cargo", "+nightly", "miri", "run", "--offline", "--quiet", "--manifest-path", os.path.join(build_root(), "sim", "Cargo.toml"), "--"]
+    return [binary(variant)]
+
+
 def run_env(variant):
     """Environment for running a variant's binary."""
     env = dict(os.environ)
+    if variant == "E":
+        env["CARGO_NET_OFFLINE"] = "true"
+        env["MIRIFLAGS"] = ("-Zmiri-disable-isolation " + os.environ.get("HBSIM_MIRIFLAGS_EXTRA", "")).strip()
+        env["CARGO_TARGET_DIR"] = os.path.join(build_root(), "target-E")
+        env["RUSTFLAGS"] = (env.get("RUSTFLAGS", "") + " -Awarnings").strip()
     if variant.startswith("D"):
         env["HBSIM_ASAN"] = "1"
         env["ASAN_OPTIONS"] = "detect_leaks=0:abort_on_error=1:symbolize=0"
@@ -93,6 +107,14 @@ def build(variant, quiet=True):
     """Builds hbsim for a variant from the repository's current working tree. Returns (ok, seconds, log)."""
     profile, group, toolchain, flags, triple = VARIANTS[variant]
     simdir = render()
+    if variant == "E":
+        # `cargo miri run` builds on first use; run a trivial sub-command to build (and to fail early)
+        t0 = time.time()
+        p = subprocess.run(command("E") + ["width"], env=run_env("E"), stdout=subprocess.PIPE, stderr=subprocess.STDOUT, text=True)
+        ok = p.returncode == 0 and p.stdout.strip().endswith("8")
+        if not ok:
+            sys.stderr.write(p.stdout[-6000:])
+        return ok, time.time() - t0, p.stdout
     env = dict(os.environ)
     env["CARGO_NET_OFFLINE"] = "true"
     env["HBSIM_GROUP"] = group
